@@ -19,7 +19,7 @@ MODULE = 'SshAudit.Props.C10'
 NAMESPACE = 'SshAudit.C10'
 THEOREMS = ['byte_rt', 'byte_overflow', 'bool_rt', 'u32_rt', 'u32_overflow', 'string_rt', 'namelist_rt', 'namelist_empty',
             'createMpint_signed', 'mpint2_rt', 'createMpintU_eq', 'mpint1_rt', 'writeMpint1Z_nat', 'mpint1_negative_not_rt',
-            'kexinit_rt', 'padLen_bounds', 'frame_eq', 'frame_wf', 'frame_read_back', 'frame_rfc', 'crc_fold', 'crc_table_eq_spec', 'crcCalc_lt', 'frame1_read_back']
+            'kexinit_rt', 'padLen_bounds', 'frame_eq', 'frame_wf', 'frame_read_back', 'frame_rfc', 'crc_fold', 'crc_table_eq_spec', 'crcCalc_lt', 'frame1_read_back', 'frames_read_back']
 TECHNIQUE = 'Lean 4 theorems (induction, omega, kernel-evaluated 256-entry CRC table) over a hand-written codec model + differential correspondence with the Python codecs'
 LEVEL_TEXT = ('Round-trip, framing and CRC statements are proved for every value and every byte string (unbounded) about the Lean model of the '
               'buffer classes; the model is executed by a compiled driver and compared op-by-op with the real ReadBuf/WriteBuf/SSH_Socket/'
@@ -52,12 +52,28 @@ class FakeSock:
         pass
 
 
+class ChunkSock(FakeSock):
+    """delivers the scripted chunks one recv at a time, never more than asked for; then the peer is closed"""
+    def __init__(self, chunks):
+        super().__init__(b'')
+        self.chunks = [c for c in chunks if c]
+
+    def recv(self, n):
+        if not self.chunks:
+            return b''
+        c = self.chunks.pop(0)
+        if len(c) > n:
+            self.chunks.insert(0, c[n:])
+            c = c[:n]
+        return c
+
+
 def mk_socket(data=b''):
     from ssh_audit.ssh_socket import SSH_Socket
     from ssh_audit.outputbuffer import OutputBuffer
     out = OutputBuffer()
     s = SSH_Socket(out, 'localhost', 22)
-    fs = FakeSock(data)
+    fs = ChunkSock(data) if isinstance(data, list) else FakeSock(data)
     s._SSH_Socket__sock = fs
     return s, fs, out
 
@@ -162,6 +178,23 @@ def impl(op, arg):
         import io, contextlib
         with contextlib.redirect_stdout(io.StringIO()):
             return guard(run)
+    if op == 'readpackets':
+        def runs():
+            s, fs, _ = mk_socket(list(arg))
+            pk, end = [], None
+            for _ in range(len(b''.join(arg)) + 2):
+                try:
+                    t, p = s.read_packet(2)
+                except BaseException as e:  # noqa
+                    end = exn_name(e)
+                    break
+                if t < 0:
+                    break
+                pk.append([t, p.hex()])
+            return {'packets': pk, 'end': end}
+        import io, contextlib
+        with contextlib.redirect_stdout(io.StringIO()):
+            return guard(runs)
     if op == 'readpacket1':
         def run1():
             s, fs, _ = mk_socket(arg)
@@ -225,6 +258,8 @@ def line_of(op, arg):
         return '%s %s' % (op, '_' if not arg else ','.join(tbytes(x) for x in arg))
     if op == 'stringu.enc':
         return 'string.enc %s' % tbytes(arg)
+    if op == 'readpackets':
+        return 'readpackets %s' % tbytes(b''.join(arg))
     return '%s %s' % (op, tbytes(arg))
 
 
@@ -385,6 +420,33 @@ def build_cases(ctx):
         pad = r.choice([0, 3, 4, 7, 11, 12, 255, r.getrandbits(8)])
         body = bytes(r.getrandbits(8) for _ in range(r.choice([0, 1, plen % 100, max(0, plen - 1) % 100, r.randint(0, 90)])))
         cases.append(('readpacket', struct.pack('>IB', plen, pad) + body, ['readpacket-arbitrary']))
+    # several packets on one connection, delivered in pieces: cuts at random places, inside the padding of each packet, and where recv(2048) ends inside the padding
+    for k in range(ctx.scale(120, 3000)):
+        n = r.choice([2, 2, 3, 4])
+        sizes = [r.choice([1, 2, 5, 12, 13, 60, r.randint(1, 300)]) for _ in range(n)]
+        if k % 4 == 0:
+            sizes[0] = r.choice([2040, 2041, 2042, 2043, 2036, 4088, 4089, 4090, 4091])      # the first packet's padding straddles a 2048-byte recv
+        pls = [bytes([r.choice([20, 21, 2, 4, 31])]) + bytes(r.getrandbits(8) for _ in range(sz - 1)) for sz in sizes]
+        frames = [rfc_frame(p, extra_pad=r.choice([0, 0, 1])) for p in pls]
+        stream = b''.join(frames)
+        cuts = set()
+        mode = k % 3
+        if mode == 0:       # inside the padding of every packet but the last
+            off = 0
+            for fr in frames[:-1]:
+                off += len(fr)
+                cuts.add(off - r.randint(1, fr[4]))
+        elif mode == 1:
+            cuts = set(r.sample(range(1, len(stream)), min(len(stream) - 1, r.randint(1, 6))))
+        chunks, prev = [], 0
+        for c in sorted(cuts) + [len(stream)]:
+            chunks.append(stream[prev:c])
+            prev = c
+        cases.append(('readpackets', chunks, ['multi-packet', 'cuts-%s' % ['in-padding', 'random', 'whole'][mode]]))
+        if k % 10 == 0:      # a damaged stream: the same, with a flipped length byte somewhere
+            b = bytearray(stream)
+            b[r.randrange(min(len(b), 12))] ^= 1 << r.randrange(8)
+            cases.append(('readpackets', [bytes(b)[:len(b) // 2], bytes(b)[len(b) // 2:]], ['multi-packet-damaged']))
     # SSH-1 packets: every data length 0..80 (all eight residues of the length field, several times), random padding bytes, larger ones, then damaged ones
     for L in list(range(0, 81)) + [r.randint(81, 3000) for _ in range(ctx.scale(40, 1500))]:
         data = bytes(r.getrandbits(8) for _ in range(L))
@@ -429,6 +491,15 @@ def rfc_decode(b):
     if len(b) != 4 + plen or len(b) % 8 != 0 or pad < 4 or plen < pad + 1:
         return None
     return b[5:5 + plen - pad - 1]
+
+
+def rfc_frame(payload, extra_pad=0):
+    """Independent RFC 4253 section 6 framer (oracle side): at least 4 bytes of padding, total a multiple of 8."""
+    pad = -(len(payload) + 5) % 8
+    if pad < 4:
+        pad += 8
+    pad += 8 * extra_pad
+    return struct.pack('>IB', len(payload) + pad + 1, pad) + payload + b'\x00' * pad
 
 
 def ssh1_frame(t, data, pad=None):
@@ -508,6 +579,22 @@ def oracle(op, arg, res, fail):
             back = impl('readpacket', fr + b'\x77')
             if back != {'ok': [arg[0], arg[1:].hex(), '77']}:
                 fail('frame_not_read_back', op, arg, back, 'own reader returns the payload')
+    elif op == 'readpackets':
+        # independent decoding of the whole stream: if it is a sequence of well-formed packets, exactly those must be read, however the bytes arrived
+        stream, want, ok = b''.join(arg), [], True
+        while stream:
+            if len(stream) < 5:
+                ok = False
+                break
+            plen, pad = struct.unpack('>IB', stream[:5])
+            if (plen + 4) % 8 or pad < 4 or plen < pad + 2 or len(stream) < 4 + plen:
+                ok = False
+                break
+            pl = stream[5:5 + plen - pad - 1]
+            want.append([pl[0], pl[1:].hex()])
+            stream = stream[4 + plen:]
+        if ok and (res['ok']['packets'] != want or res['ok']['end'] is not None):
+            fail('packets_not_read_back', op, arg, {'packets': len(res['ok']['packets']), 'end': res['ok']['end']}, {'packets': len(want), 'end': None})
     elif op == 'readpacket1':
         want = ssh1_decode(arg)
         if want is not None and res['ok'] != [want[0], want[1].hex(), want[2].hex()]:
